@@ -1,5 +1,6 @@
 import MQ.Inv.RingMain
 import MQ.Inv.PinMain
+import MQ.Inv.SlotFrame
 /-!
 # C04 — consumers only ever observe complete, live values
 `cont i` is the value a slot holds (changed only by the value-write step of the thread that claimed a
@@ -93,5 +94,26 @@ theorem C04_unpinned_reader_is_current_partial (N : Nat) (wait : WaitK) (fut : B
 /-- the premises are satisfiable: the empty execution, and a first step -/
 example : NRun (init 4 true .busy false) [.call 0 .tryRecv 1 0 0 0] (step (init 4 true .busy false) (.call 0 .tryRecv 1 0 0 0)) :=
   .cons rfl (.nil _)
+
+/-- C04 (structural — every state, every interleaving, no exclusion): no step of a consumer, of a handle operation, of
+the memory manager or of the teardown writes a slot. A slot's content changes at exactly one program point — `wr`, the
+value write of a thread that went through the claim — and only in the slot `h % N` of the claimed position; a slot's
+tag changes at exactly one program point — `ts`, the publication that follows that write — and only for that slot,
+to the claimed position. So whatever a consumer reads from a slot was put there, whole, by one writer's `wr` step
+(the model's value write is one step: `ptr::write` of a `T` is not observable half-done by a reader that the pin
+/ sole-consumer protocol keeps out — `C04_writer_reader_exclusion_partial`). -/
+theorem C04_slots_written_only_by_claiming_writer (σ : St) (t inp : Nat) :
+    ((stepRun σ t inp).2.cont = σ.cont ∨
+      ∃ h old, (σ.th t).pc = .wr h old ∧ (stepRun σ t inp).2.cont = upd σ.cont (h % σ.N) (some (σ.th t).v)) ∧
+    ((stepRun σ t inp).2.tag = σ.tag ∨
+      ∃ h old, (σ.th t).pc = .ts h old ∧ (stepRun σ t inp).2.tag = upd σ.tag (h % σ.N) (some h)) :=
+  ⟨cont_written_only_at_wr σ t inp, tag_written_only_at_ts σ t inp⟩
+
+/-- … in particular a thread that is not at the value write leaves every slot's content alone -/
+theorem C04_no_write_outside_wr (σ : St) (t inp : Nat) (h : ∀ p old, (σ.th t).pc ≠ .wr p old) :
+    (stepRun σ t inp).2.cont = σ.cont := by
+  rcases cont_written_only_at_wr σ t inp with e | ⟨p, old, hp, _⟩
+  · exact e
+  · exact absurd hp (h p old)
 
 end MQ
